@@ -486,6 +486,31 @@ func runC20(c *mon.Ctx) {
 		for _, d := range durs {
 			issue(d)
 		}
+		// issue instants aligned inside the second: late in it (a token whose issue instant were rounded to the
+		// nearest second instead of cut would live up to half a second too long - seeded change C20-S) and early in it
+		alignTo := func(frac float64) {
+			now := time.Now()
+			f := float64(now.Nanosecond()) / 1e9
+			wait := frac - f
+			if wait < 0 {
+				wait += 1
+			}
+			time.Sleep(time.Duration(wait * float64(time.Second)))
+		}
+		for _, frac := range []float64{0.58, 0.05, 0.92} {
+			alignTo(frac)
+			f := float64(time.Now().Nanosecond()) / 1e9
+			if f >= 0.5 {
+				c.Count("realtime_issued_in_second_half_of_a_second")
+			} else {
+				c.Count("realtime_issued_in_first_half_of_a_second")
+			}
+			for _, d := range durs {
+				if d != 0 && d < 10 {
+					issue(d)
+				}
+			}
+		}
 		nextIssue := start.Add(7 * time.Second)
 		for time.Since(start) < pollFor {
 			now := time.Now()
@@ -512,7 +537,7 @@ func runC20(c *mon.Ctx) {
 				issue(2)
 				nextIssue = now.Add(5 * time.Second)
 			}
-			time.Sleep(200 * time.Millisecond)
+			time.Sleep(40 * time.Millisecond)
 		}
 		expired := 0
 		for _, l := range lives {
